@@ -12,12 +12,14 @@
    has signed, its own Commit slot keeps exactly that commit and NO further call changes the view (the commit lock, at all
    of its sites including a PrepareRequest arriving after the commit) until the next epoch; every ChangeView the node
    broadcasts in the epoch precedes its signature request - after it has signed, no call makes it broadcast a ChangeView - and
-   the table of view-change requests (its own request included) is never written again (SignLCV.v, Typed.v, SignLNoCV.v).
-   The history-level clauses about proposals, responses and pre-commits (no two per view / at all), "every retransmission is
-   identical" over whole histories, view monotonicity of the outgoing messages and the recovery contents are NOT proved; they
+   the table of view-change requests (its own request included) is never written again (SignLCV.v, Typed.v, SignLNoCV.v);
+   from its signature request on, every Commit payload it broadcasts - the first broadcast and every direct retransmission - is
+   the commit built at that request (TypedCM.v, SignLCM.v).
+   The history-level clauses about proposals, responses and pre-commits (no two per view / at all), the commits carried inside
+   recovery messages, view monotonicity of the outgoing messages and the recovery contents are NOT proved; they
    are decided by the monitors on the real library over the generated histories (DESIGN.md section 0.1). *)
 From Coq Require Import ZArith List.
-From DbftV Require Import P03 P02 SignLApi SignLCV Typed SignLNoCV.
+From DbftV Require Import P03 P02 SignLApi SignLCV Typed SignLNoCV SignLCM.
 Open Scope Z_scope.
 
 Definition own_commit_or_precommit_sent (s : nstate) : Prop :=
@@ -135,3 +137,21 @@ Theorem stored_commits_and_precommits_are_what_they_say cfg st i p :
   (nth_chk (CommitPayloads st) i = Some (Some p) -> p_type p = CommitT).
 Proof. intros HR. destruct (typed_reach cfg st HR) as [A B]. split; [apply A|apply B]. Qed.
 Print Assumptions stored_commits_and_precommits_are_what_they_say.
+
+(* "never broadcasts two different commits ... every retransmission of it is identical to the original" (direct retransmissions):
+   from the first signature request of the epoch on, every Commit payload the node broadcasts is the commit built at that
+   request, with the sender field that broadcast fills in *)
+Theorem every_commit_broadcast_from_the_signature_on_is_the_signed_commit cfg st g mi g1 s p g2 :
+  Epoch cfg st g -> KS mi g -> zlen (Validators st) <= 65536 ->
+  g = g1 ++ (s, CBroadcast p) :: g2 -> p_type p = CommitT -> nsign g1 <> 0%nat ->
+  exists c, signed_commit g1 = Some c /\ p = c <| p_idx := u16 (MyIndex s) |>.
+Proof. exact (every_commit_broadcast_is_the_signed_commit cfg st g mi g1 s p g2). Qed.
+Print Assumptions every_commit_broadcast_from_the_signature_on_is_the_signed_commit.
+
+Theorem commit_broadcasts_of_an_epoch_are_identical cfg st g mi g1 s p g2 g1' s' p' g2' :
+  Epoch cfg st g -> KS mi g -> zlen (Validators st) <= 65536 ->
+  g = g1 ++ (s, CBroadcast p) :: g2 -> p_type p = CommitT -> nsign g1 <> 0%nat ->
+  g = g1' ++ (s', CBroadcast p') :: g2' -> p_type p' = CommitT -> nsign g1' <> 0%nat ->
+  MyIndex s = MyIndex s' -> p = p'.
+Proof. exact (commit_broadcasts_after_the_signature_are_identical cfg st g mi g1 s p g2 g1' s' p' g2'). Qed.
+Print Assumptions commit_broadcasts_of_an_epoch_are_identical.
